@@ -123,7 +123,7 @@ def r2(ctx):
 
 def r3(ctx):
     b = ctx.fbody(name="all_healthy", self_adt=C1, trait="")
-    cases = b.local_cases(0)
+    cases = b.expanded_cases(0)
 
     def val(cell):
         def v(a):
